@@ -339,7 +339,7 @@ Next1 ==
         /\ n = 0 => parts = <<>>          \* offering nothing is explored once
         /\ NextPart(n, PartOf(Offered(n)))
   \/ DoJoin
-  \/ \E mode \in {"fresh", "set"} : Len(data) > 0 /\ pos = 0 /\ parts = <<>> /\ Apply(mode, ApplyResult(mode))
+  \/ \E mode \in {"fresh", "set", "set2"} : Len(data) > 0 /\ pos = 0 /\ parts = <<>> /\ Apply(mode, ApplyResult(mode))
   \/ /\ Len(data) > 0 /\ pos = 0 /\ parts = <<>>
      /\ LET ps == ApplyResult("set") IN
         Poly(IF SumUsr(ps) > 0 THEN "ok" ELSE "refused", ps, PolyPts(ps), PolyEnds(ps))
